@@ -47,6 +47,8 @@ DOCS = [
                                       ["div", "r=r3", [["p", "ta=start", [S("C", "")]]]]]]),
   ("two-regions-two-p-each", [["r1", ""], ["r2", ""]],
    ["body", "", [["div", "r=r1", [["p", "b", [S("A", "")]], ["p", "", [S("B", "")]]]], ["div", "r=r2", [["p", "e", [S("C", "")]], ["p", "", [S("D", "")]]]]]]),
+  ("three-breaks", [], ["body", "", [["div", "", [["p", "b e", [["span", "", [T("A"), ["br", ""], ["br", ""], ["br", ""], T("B")]]]]]]]]),
+  ("align-rtl-start", R1, ["body", "", [["div", "r=r1", [["p", "b e ta=start dir=rtl", [S("A", "")]], ["p", "b e ta=end", [S("B", "")]]]]]]),
   ("styles-2", R1, ["body", "", [["div", "r=r1", [["p", "b e", [S("A", "c=red"), S("B", "bg=red"), S("C", "fs=italic td=underline"), S("D", "fw=bold fs=italic td=underline c=blue bg=blue")]]]]]]),
 ]
 
